@@ -75,10 +75,10 @@ EXTRA = {
  "C03": " Also: a second split of the same session (rerun) and a long recording spanning many windows.",
  "C04": " Also: a session whose metadata claims fewer samples than the file holds, two process() calls on the same converter object, and the NP2.4_shank key / stream type of every shank file.",
  "C05": " Also: labels anywhere on the probe (dead/noisy patterns, NPultra), long arrays, and forwarding of every documented argument by car/kfilt/fk.",
- "C06": " Also: append mode x worker counts, recordings no longer than one batch, compute_rms off, float32 output, non-symmetric whitening matrices, sample shifts given explicitly, and a second run over the outputs of the first (header history).",
+ "C06": " Also: stale longer output / QC files in the output folder, seams bound by object identity with a black-box fallback; append mode x worker counts, recordings no longer than one batch, compute_rms off, float32 output, non-symmetric whitening matrices, sample shifts given explicitly, and a second run over the outputs of the first (header history).",
  "C07": " Also: re-use of the same shifts array across calls, stacked inputs.",
  "C08": " Also: NP2.4 selections starting at rows 0 and 600 and a low-row NP2.4 layout; full-probe layouts of every kind.",
- "C09": " Also: configurations without a sync channel, values actually consumed by the reader (used), and every entry of the shipped fixture metadata files.",
+ "C09": " Also: metadata sharing gain / site tables but differing in range, max-int, rate, duration read one after the other in one process; IMRO tables listing more channels than are saved; integers above 2^53; configurations without a sync channel, values actually consumed by the reader (used), and every entry of the shipped fixture metadata files.",
  "C10": " Also: repeated extraction from the same reader (twice), step thresholds.",
  "C11": " Also: three opening modes (offline / online / ignore_warnings), a .ch whose sampling rate differs by 1e-4 relative, deferred opening (Reader(open=False) then open()), int16 and other sample formats.",
  "C12": " Also: a sweep over window sizes on one recording, a second conversion of the same session, and sub-range reads of the LF file.",
@@ -93,7 +93,7 @@ EXTRA = {
 
 # second build session: fault kinds, object histories, presentation classes (memory layout / dtype), file names
 EXTRA2 = {
- "C02": " Every deviation point is explored with two fault kinds: the process is killed there, or the operation fails there with an I/O error (an ordinary exception seen by the library's own handlers).",
+ "C02": " Every deviation point is explored with two fault kinds: the process is killed there, or the operation fails there with an I/O error (an ordinary exception seen by the library's own handlers); a third kind damages one compressed chunk on its way to the disk (the default verification pass must notice before anything carries the final name).",
  "C03": " Also: the same converter object re-initialised (same / another window) before a forced re-split.",
  "C04": " Every deviation point of first-level runs (thorough: all runs) is also explored with an injected I/O error instead of a kill; oracle-relevant history facts are part of the state identity; originals whose file name has no '.ap.' component or contains 'ap' elsewhere; a run that kills the interpreter (e.g. SIGBUS after truncating a mapped file) is reported as a violation, not a hang.",
  "C05": " Clause layouts: every public call x array argument x memory layout (Fortran order, strided view, negative strides, read-only, offset view) and dtype gives the result of the plain call and leaves its arguments untouched.",
@@ -102,7 +102,7 @@ EXTRA2 = {
  "C10": " Also: analog lines with 2.5 % glitch samples below their floor; clause layouts (dtypes int8..int64, uint16 words, strided / Fortran inputs).",
  "C11": " Also: metadata still in progress (no fileSizeBytes / fileTimeSecs, like the shipped while-acquiring fixture) for the online reader; one reader object closed and re-opened over every 3-step history of 6 file sizes (offline / online, opened at construction or later).",
  "C12": " Also: the same converter object re-initialised with another window before a forced re-conversion.",
- "C13": " Also: spike times as int64 / uint64 / int32 / uint32 arrays.",
+ "C13": " Also: spike times as int64 / uint64 / int32 / uint32 arrays; coincident spikes of two units on the same peak channel; seams bound by object identity, public-entry-point fallback for the table clause.",
  "C14": " Also: every enumerated integer-valued batch handed over as int16 / int32 / float32 (same features); clause layouts.",
  "C15": " Also: files with blank (all-zero) batches and an intermittently silent channel; a non-finite sample on a far-away good channel must not reach repaired channels; clause layouts.",
  "C16": " Clause layouts: memory layouts / float32 presentations of the data and of the per-channel range.",
